@@ -15,7 +15,7 @@ RULE = (
     "parallel planes), polygon-polyhedron (a face, face shifted/scaled in its plane, sections larger/smaller/"
     "partially overlapping the true section, touching a vertex/edge, inside, free) and polyhedron-polyhedron "
     "(equal, translated by a vertex difference or a fraction of it, glued on a whole/partial face, sharing an "
-    "edge or a vertex, nested, inscribed (spanned by vertex / edge / face points of the other body, touching its boundary from inside), independent; one body in fifteen is a small hash-collision body with vertices at -1 / -2), each stratum also with both operands mapped by the same rational "
+    "edge or a vertex, sitting on a face plane with a partly overlapping base, nested, inscribed (spanned by vertex / edge / face points of the other body, touching its boundary from inside), independent; one body in fifteen is a small hash-collision body with vertices at -1 / -2), each stratum also with both operands mapped by the same rational "
     "rotation (integer quaternions; the library receives the float roundings, the oracle the exact rationals). "
     "Both argument orders and the method form are compared with the exact vertex enumeration of the combined "
     "H-representations: kind by dimension, vertex set within 1e-7, V-E+F=2 and exact face/edge counts for "
@@ -140,7 +140,7 @@ def gk(draw, recipe):
 
 @st.composite
 def kk(draw, recipe):
-    K = draw(GB.polyhedron())
+    K = draw(GB.polyhedron(draw(st.sampled_from(("prism", "pyramid", "para", "prism"))) if recipe == "glue-face-overlap" and draw(st.booleans()) else None))
     K2 = draw(GB.polyhedron_vs_polyhedron(K, recipe))
     assume(GB.max_coord(K2) <= 40)
     return (K, K2, recipe)
@@ -149,7 +149,7 @@ def kk(draw, recipe):
 GG_COPLANAR = ("equal", "share-vertex", "share-edge-full", "share-edge-part", "translated", "nested", "overlap", "disjoint")
 GG_CROSSING = ("through", "edge-on-plane", "vertex-touch", "parallel-plane")
 GK = ("face", "face-shifted", "face-bigger", "face-smaller", "section-big", "section-small", "section-partial", "touch-V", "touch-E", "inside", "free")
-KK = ("equal", "translate-vertex", "translate-half", "glue-face", "glue-face-part", "share-edge", "share-vertex", "nested", "inscribed", "independent")
+KK = ("equal", "translate-vertex", "translate-half", "glue-face", "glue-face-part", "glue-face-overlap", "share-edge", "share-vertex", "nested", "inscribed", "independent")
 
 
 def strata(tier):
@@ -168,6 +168,6 @@ def strata(tier):
         out.append(Stratum("G-K/" + r + "/rot", "hyp", gen.with_variant(rotated(gk(r))), n // 2))
     n = 36 if q else 640
     for r in KK:
-        out.append(Stratum("K-K/" + r, "hyp", gen.with_variant(kk(r)), n))
+        out.append(Stratum("K-K/" + r, "hyp", gen.with_variant(kk(r)), n * 2 if r == "glue-face-overlap" else n))
         out.append(Stratum("K-K/" + r + "/rot", "hyp", gen.with_variant(rotated(kk(r))), n // 2))
     return out
